@@ -6,6 +6,8 @@
 
 #[cfg(feature = "heapmon")]
 pub mod heap;
+pub mod fq;
+pub mod hist;
 pub mod pipe;
 pub mod prng;
 pub mod props;
